@@ -439,6 +439,66 @@ pub fn c08(opts: &Opts, out: &mut Out) {
             }
         }
     }
+    // batches with *repeated* members: the same (statement, proof, transcript) triple several times. Defects are
+    // applied to every copy of a group alike; a weight derivation in which equal members cancel (for instance an XOR
+    // or a sum of per-member digests) would make the weights of such a batch computable in advance.
+    for (n, t, mode, layout) in [(2usize, 1usize, 0usize, vec![0usize, 0, 1, 1]), (4, 2, 1, vec![0, 1, 1, 0]), (2, 2, 0, vec![0, 0, 1, 1, 2, 2]), (4, 1, 1, vec![0, 0, 0, 0, 1, 1])] {
+        let groups = layout.iter().max().unwrap() + 1;
+        let insts: Vec<Inst> = (0..groups).map(|g| fmrun::random_inst(n, 1 << (g % 2), 2, t, g + 4, mode == 1, &mut rng)).collect();
+        let proofs: Vec<Proof> = insts.iter().map(|i| i.prove(&mut rng).unwrap()).collect();
+        let pr = fmrun::params(n, 2, t);
+        let ids = fmx::gen_ids(&pr, n);
+        let whole_flag = std::cell::Cell::new(true);
+        let run = |offs: &Vec<Scalar>, kk: usize| -> (bool, FP, Vec<Scalar>) {
+            let ps: Vec<Proof> = layout.iter().map(|g| { let mut parts = fmx::parts(&proofs[*g]); parts.d1[kk] += offs[*g]; parts.to_proof().unwrap() }).collect();
+            let stmts: Vec<Stmt> = layout.iter().map(|g| insts[*g].statement()).collect();
+            let mut ts: Vec<_> = layout.iter().map(|g| insts[*g].transcript()).collect();
+            tap::start();
+            fm::tap_start();
+            let r = Proof::verify_batch(&mut ts, &stmts, &ps, if mode == 0 { VerifyAction::VerifyOnly } else { VerifyAction::RecoverAndVerify });
+            if !fm::tap_is_whole_check() {
+                whole_flag.set(false);
+            }
+            let res = fm::tap_take().last().cloned().unwrap_or_default();
+            (r.is_ok(), res, fmx::weights_of(&tap::take()))
+        };
+        let zero = vec![Scalar::ZERO; groups];
+        let (ok0, _, _) = run(&zero, 0);
+        out.oracle("C08:honest-batch-accepted", ok0, &format!("repeated members layout={:?} n={} t={}", layout, n, t), "honest batch with repeated members rejected");
+        for gi in 0..groups {
+            for gj in 0..groups {
+                if gi == gj {
+                    continue;
+                }
+                for kk in 0..t {
+                    let key = format!("repeated members layout={:?} n={} t={} mode={} groups=({},{}) coord={}", layout, n, t, mode, gi, gj, kk);
+                    let delta = Scalar::from(9u8);
+                    let mut oa = zero.clone();
+                    oa[gi] = delta;
+                    let (oka, ra, _) = run(&oa, kk);
+                    let mut ob = zero.clone();
+                    ob[gj] = delta;
+                    let (okb, rb, _) = run(&ob, kk);
+                    out.oracle("C08:single-defect-rejected", !oka && !okb, &key, "a batch with one perturbed group of equal members was accepted");
+                    if !whole_flag.get() {
+                        continue;
+                    }
+                    let (fi, fj) = (ra.coord(ids.gb[kk]) * delta.invert(), rb.coord(ids.gb[kk]) * delta.invert());
+                    if fj == Scalar::ZERO {
+                        // the copies' weights cancel each other: then the group's defect is not seen at all
+                        out.oracle("C08:factor-nonzero", okb == false, &key, "a group of equal members enters the batch with total factor zero and is accepted");
+                        continue;
+                    }
+                    let mut oc = zero.clone();
+                    oc[gi] = delta;
+                    oc[gj] = -(delta * fi * fj.invert());
+                    let (okc, _, _) = run(&oc, kk);
+                    out.oracle("C08:cancelling-defects-rejected", !okc, &key, "batch of repeated members with equal-and-opposite group defects (computed from factors observed on earlier runs) ACCEPTED");
+                    classes.insert((n, groups, t, mode, 100 + kk));
+                }
+            }
+        }
+    }
     out.stat("distinct_classes", classes.len());
-    out.case("batches of k valid proofs; for every ordered pair (i,j) and blinding coordinate: run A/B perturb d1 of one member to read its factor from the residual, run C applies equal-and-opposite defects computed from those factors".into());
+    out.case("batches of k valid proofs; for every ordered pair (i,j) and blinding coordinate: run A/B perturb d1 of one member to read its factor from the residual, run C applies equal-and-opposite defects computed from those factors; the same with repeated members (groups of equal triples perturbed alike)".into());
 }
